@@ -38,7 +38,7 @@ INSTANCES = {
     "pathshape": ["./x", "a//b", "a/../b", "a/./b", "..", "a/", " a", "a "],
     "linesep": ["a\u2028b", "x\u2029y", "p\x85q", "v\x0bw", "f\x0cg", "s\x1ct\x1du\x1ev"],
 }
-BOUNDS = {"quick": dict(MaxFiles=2, MaxMeas=1, MaxSpecial=1, inst=1, shapes='{"top", "nested", "deep"}'), "thorough": dict(MaxFiles=3, MaxMeas=1, MaxSpecial=1, inst=3, shapes='{"top", "nested", "deep"}')}
+BOUNDS = {"quick": dict(MaxFiles=2, MaxMeas=3, MaxSpecial=1, inst=1, shapes='{"top", "nested", "deep"}'), "thorough": dict(MaxFiles=3, MaxMeas=3, MaxSpecial=1, inst=3, shapes='{"top", "nested", "deep"}')}
 
 
 def inst(cls, k):
@@ -58,7 +58,9 @@ def build_report(rep, k):
     for n, f in enumerate(rep["files"]):
         base = inst(f["pathC"], k + n) + f"{n}.py" if f["pathC"] != "plain" else f"mod{n}.py"
         path = {"top": base, "nested": "pkg/" + base, "deep": "pkg/sub/" + base}[f["shape"]]
-        ms = [Measurement(inst(f["nameC"], k + i) if f["nameC"] != "plain" else f"fn{i}", Location(3 + 40 * i, 1 + i), Location(12 + 40 * i, 2), (10, 35, 61)[i % 3]) for i in range(f["nmeas"])]
+        nm = f["nmeas"]
+        pos = {"source": lambda i: i, "reversed": lambda i: nm - 1 - i, "tied": lambda i: 0}[f.get("layout", "source")]  # where the i-th measurement of the list starts
+        ms = [Measurement(inst(f["nameC"], k + i) if f["nameC"] != "plain" else f"fn{i}", Location(3 + 40 * pos(i), 1 + pos(i)), Location(12 + 40 * pos(i) + i, 2), (10, 35, 61)[i % 3]) for i in range(nm)]
         checksum = "c0ffee" * 5 + "00" if rep.get("sums") == "same" else f"{n:032x}"
         # the stored line total is a value of its own: equal to the sum of the lengths, 0, or something else
         total = sum(m.value for m in ms)
@@ -186,6 +188,8 @@ def special_fields(rep):
             out.append("path:" + f["pathC"])
         if f["nameC"] != "plain":
             out.append("unit_name:" + f["nameC"])
+        if f.get("layout", "source") != "source":
+            out.append("measurements:" + f["layout"])
     return sorted(set(out))
 
 
